@@ -271,6 +271,17 @@ def run(ctx):
     except Exception as e:   # extraction needs the development to compile
         broken = broken or ("extraction of the checker failed: %s" % str(e)[-600:])
 
+    # ---- replay of a stored witness: check that one program only
+    if getattr(ctx, "replay", None) and exe is not None:
+        with open(os.path.join(ctx.replay, "src.wgsl")) as f:
+            src = f.read()
+        ks = keys_of(tools, exe, src)
+        ctx.cov["evaluations"] = 1
+        ctx.cov["rule"] = "replay of %s" % ctx.replay
+        ctx.sample({"replay": ctx.replay, "keys": sorted(ks) if ks is not None else "rejected by the front end"})
+        for k in sorted(ks or []):
+            ctx.violation("IR contract clause violated: %s (replayed program)" % k, files={"src.wgsl": src}, key=k)
+        return
     # ---- programs
     rng = ctx.rng.fork("c09")
     programs = [("corpus/" + n, s) for n, s in nagarun.corpus()]
